@@ -99,7 +99,31 @@ func (s *State) clone() *State {
 }
 
 func (s *State) assume(f *Term) {
+	if f.Op == "and" {
+		for _, a := range f.Args {
+			s.assume(a)
+		}
+		return
+	}
 	s.pc = s.pc.push(f)
+}
+
+// known reports whether f is literally one of the facts on the current path (cheap syntactic check that spares
+// re-proving and re-assuming global invariants at every call).
+func (s *State) known(f *Term) bool {
+	if f.Op != "forall" && termSize(f, 30) < 30 {
+		return false
+	}
+	fs := f.String()
+	for q := s.pc; q != nil; q = q.parent {
+		if q.fact == f || (q.fact.Op == f.Op && len(q.fact.str) == len(fs) && q.fact.String() == fs) {
+			return true
+		}
+		if q.fact.Op == f.Op && q.fact.str == "" && q.fact.String() == fs {
+			return true
+		}
+	}
+	return false
 }
 
 // heapArr returns the current version of a heap array, creating the entry version lazily.
